@@ -130,6 +130,10 @@ def do_check(prop, pid, tier, seed, a, scratch, t0):
             errors.append("%s: zero obligations" % q)
         all_results += m["results"]
 
+    # obligations of a shared function that state another property's claim are left to that property's check (listed in the evidence)
+    oos_pats = getattr(prop, "OUT_OF_SCOPE", [])
+    out_of_scope = [r["name"] for r in all_results if any(re.search(pt, r["name"]) for pt in oos_pats)]
+    all_results = [r for r in all_results if r["name"] not in set(out_of_scope)]
     discharged = [r for r in all_results if r["result"] == "unsat"]
     failing = [r for r in all_results if r["result"] != "unsat"]
 
@@ -281,7 +285,10 @@ def do_check(prop, pid, tier, seed, a, scratch, t0):
         cov["evaluations"] = max(1, int(standin.get("evaluations", 0)))
         cov["distinct_nontrivial"] = max(2, int(standin.get("distinct_nontrivial", 0))) if standin.get("distinct_nontrivial", 0) >= 2 else int(standin.get("distinct_nontrivial", 0))
         cov["rule"] = standin.get("rule", "")
-    ev = dict(property_id=pid, tier=tier, seed=seed, level=level, coverage=cov, assumptions=list(getattr(prop, "ASSUMPTIONS", [])), wall_s=round(wall, 2), violations=len(vio_lines))
+    assumptions = list(getattr(prop, "ASSUMPTIONS", []))
+    if out_of_scope:
+        assumptions.append("%d obligations of shared functions state another property's claim and are decided by that property's check, not here: %s" % (len(out_of_scope), "; ".join(sorted(out_of_scope))[:1500]))
+    ev = dict(property_id=pid, tier=tier, seed=seed, level=level, coverage=cov, assumptions=assumptions, wall_s=round(wall, 2), violations=len(vio_lines))
     os.makedirs(os.path.join(ROOT, "evidence"), exist_ok=True)
     with open(os.path.join(ROOT, "evidence", pid + ".json"), "w") as f:
         json.dump(ev, f, indent=1, default=str)
